@@ -130,7 +130,8 @@ def run(R, env):
                 if args and is_oa(args[0]):
                     unwraps.append(w.body.loc(bi))
             nmsg = 0
-            rt = w.T.return_term()
+            from engine.analysis import resolve_terms as _rt2
+            rt = _rt2(prog, w.T.return_term(), 1, None, w.assumptions)
             alts = rt[1] if rt[0] == "phi" else (rt,)
             counts = set()
             for a in alts:
